@@ -1,5 +1,7 @@
 import NA.Spec.AclDev
 import NA.Core.IOUtil
+import NA.Props.AsaSafe
+import NA.Props.IosSafe
 /-!
 Driver for the ACL line planners (serves C14, and the ACL streams of C01/C02/C08/C10).
 
@@ -141,6 +143,31 @@ def oracleIos (u : Nat) (a b : List Line) (ops : List IOp) : String :=
     | none => ""
   s!"exec={ex}\tfinal={final}\trisk={un.getD "none"}\tfinalkeys={keys fl}\tstates={states}"
 
+/-- The decidable hypotheses of `asa_steps_safe_partial`, evaluated on the case: when all hold, the theorem
+says every state of the model's script is safe (the harness reports a contradiction if the real script,
+equal to the model's, shows a risk). -/
+def asaSafeClass (M : List Cell) : String :=
+  let nd := decide ((olds M).map (·.mkey)).Nodup && decide ((news M).map (·.mkey)).Nodup
+  let nc := NoCross M
+  let ms := MoveSem M
+  let nm := NoMoves M
+  let b (x : Bool) := if x then "1" else "0"
+  s!"safe.nodup={b nd}\tsafe.nocross={b nc}\tsafe.movesem={b ms}\tsafe.nomoves={b nm}\tsafe.hyp={b (nd && nc && ms)}"
+
+/-- The decidable hypotheses of `ios_steps_safe_partial`. -/
+def iosSafeClass (M : List Cell) : String :=
+  let nd := decide ((olds M).map (·.mkey)).Nodup && decide ((news M).map (·.mkey)).Nodup
+  let both := M.any fun c => c.old && c.new
+  let shape := noJunk M && runsShortB M
+  let nc := NA.IosSafe.NoCrossIos M
+  let ms := MoveSem M
+  let nr := M.all fun c => !c.line.remark
+  let wf := (delIdx M).all fun i => (addIdx M).all fun j =>
+    !((M.getD i default).line.mkey == (M.getD j default).line.mkey) ||
+      decide (LineEqv (M.getD i default).line (M.getD j default).line)
+  let b (x : Bool) := if x then "1" else "0"
+  s!"safe.nodup={b nd}\tsafe.both={b both}\tsafe.nocross={b nc}\tsafe.movesem={b ms}\tsafe.noremark={b nr}\tsafe.wf={b wf}\tsafe.hyp={b (nd && both && shape && nc && ms && nr && wf)}"
+
 def prefixFields (pre : String) (s : String) : String :=
   "\t".intercalate ((s.splitOn "\t").map fun f => pre ++ f)
 
@@ -162,7 +189,7 @@ def answer (line : String) : String :=
           let io := match implOps with
             | some ops => prefixFields "impl." (oracleAsa u a b ops)
             | none => "impl.exec=na"
-          s!"valid=1\tnorm={norm}\tmodel={ms}\tagree={agree}\t{io}\t{prefixFields "model." (oracleAsa u a b model)}"
+          s!"valid=1\tnorm={norm}\tmodel={ms}\tagree={agree}\t{asaSafeClass M}\t{io}\t{prefixFields "model." (oracleAsa u a b model)}"
         else if backend == "ios" then
           let model := planIOS M
           let ms := joinBar (model.map showIosOp)
@@ -172,7 +199,7 @@ def answer (line : String) : String :=
             | some ops => prefixFields "impl." (oracleIos u a b ops)
             | none => "impl.exec=na"
           let rs := if (planIOS' M).2 then "1" else "0"
-          s!"valid=1\tnorm={norm}\tmodel={ms}\tagree={agree}\tremarkSuppr={rs}\t{io}\t{prefixFields "model." (oracleIos u a b model)}"
+          s!"valid=1\tnorm={norm}\tmodel={ms}\tagree={agree}\tremarkSuppr={rs}\t{iosSafeClass M}\t{io}\t{prefixFields "model." (oracleIos u a b model)}"
         else "bad-backend"
     | _, _, _, _ => "bad-input"
   | _ => "bad-input"
